@@ -637,7 +637,7 @@ func C12(c *core.Ctx) {
 		sort.Strings(p.entries)
 		plans = append(plans, p)
 	}})
-	if len(plans) < 300 {
+	if len(plans) < 350 {
 		core.Infra("C12: only %d plans", len(plans))
 	}
 	sort.Slice(plans, func(i, j int) bool {
@@ -752,6 +752,8 @@ func C12(c *core.Ctx) {
 		switch {
 		case p.target == "bytes":
 			return hostileByteMutants(b, p.op, r)
+		case p.target == "biometric-record":
+			return recordMutants(b, p.op)
 		case p.target == "text":
 			s := string(b)
 			switch p.op {
@@ -817,7 +819,7 @@ func C12(c *core.Ctx) {
 	// length-lying and size-inflating plans run one at a time (an entry point that believes a 4 GiB length field
 	// would otherwise take the machine down 16 times in parallel), with the allocation measured; the rest in parallel
 	heavy := func(p plan) bool {
-		return strings.HasPrefix(p.op, "len-") || strings.HasPrefix(p.op, "head-len") || p.op == "children-many" || p.op == "nest-deep" || p.op == "nest-arrays-deep" || p.op == "value-huge"
+		return strings.HasPrefix(p.op, "rec-") || strings.HasPrefix(p.op, "len-") || strings.HasPrefix(p.op, "head-len") || p.op == "children-many" || p.op == "nest-deep" || p.op == "nest-arrays-deep" || p.op == "value-huge"
 	}
 	outs := make([]hostileOutcome, len(jobs))
 	allocs := make([]int64, len(jobs))
@@ -1400,4 +1402,53 @@ func c12MrzTable(c *core.Ctx, x *c12ctx) {
 	for _, b := range bads {
 		c.Violation("C12:panic:"+b.entry+":"+panicSite(b.text), fmt.Sprintf("%s panicked on the zone %q: %s", b.entry, b.zone, firstLine(b.text)), map[string]any{"entry_point": b.entry, "zone": b.zone})
 	}
+}
+
+// recordMutants: the ISO/IEC 19794-5 face record of a DG2 ("FAC" 0 "010" 0, record length, number of faces, then per
+// face: block length, number of feature points, ... width, height ...) with counts and lengths that lie. The BER
+// structure around it stays intact.
+func recordMutants(b []byte, op string) [][]byte {
+	i := bytes.Index(b, []byte{'F', 'A', 'C', 0})
+	if i < 0 || i+14+20+12 > len(b) {
+		return nil
+	}
+	var out [][]byte
+	put := func(off int, val []byte) {
+		m := append([]byte{}, b...)
+		copy(m[off:], val)
+		out = append(out, m)
+	}
+	huge := [][]byte{{0x10, 0, 0, 0}, {0x7F, 0xFF, 0xFF, 0xFF}, {0xFF, 0xFF, 0xFF, 0xFF}, {0, 0, 0, 0}, {0, 0, 0, 1}}
+	switch op {
+	case "rec-record-length":
+		for _, v := range huge {
+			put(i+8, v)
+		}
+	case "rec-block-length":
+		for _, v := range huge {
+			put(i+14, v)
+		}
+		// a block length that lies together with a record length that agrees with it
+		m := append([]byte{}, b...)
+		copy(m[i+8:], []byte{0x10, 0, 0, 0x0E})
+		copy(m[i+14:], []byte{0x10, 0, 0, 0})
+		out = append(out, m)
+	case "rec-face-count":
+		put(i+12, []byte{0xFF, 0xFF})
+		put(i+12, []byte{0, 0})
+		put(i+12, []byte{0, 9})
+	case "rec-feature-count":
+		put(i+18, []byte{0xFF, 0xFF})
+		put(i+18, []byte{0, 33})
+		put(i+18, []byte{0x7F, 0xFF})
+	case "rec-image-dimensions":
+		// image information block follows the 20-octet facial information block (+ 8 per feature point of the genuine record)
+		nfp := int(b[i+18])<<8 | int(b[i+19])
+		off := i + 14 + 20 + 8*nfp
+		if off+12 <= len(b) {
+			put(off+2, []byte{0xFF, 0xFF, 0xFF, 0xFF})
+			put(off+2, []byte{0, 0, 0, 0})
+		}
+	}
+	return out
 }
